@@ -884,6 +884,13 @@ impl Engine {
                     }
                 }
             }
+            "ioasync" => match self.headers.iter().find(|h| h["k"] == "iomsgs") {
+                Some(h) => dispatch(h["id"].as_str().unwrap_or(""), crate::io::IoAsyncVisitor { eng: self, case, header: h, out }).is_some(),
+                None => {
+                    out.count("unknown-header.ioasync");
+                    true
+                }
+            },
             "iosend" => match self.headers.iter().find(|h| h["k"] == "iomsgs") {
                 Some(h) => dispatch(h["id"].as_str().unwrap_or(""), crate::io::IoSendVisitor { eng: self, case, header: h, out }).is_some(),
                 None => {
